@@ -33,6 +33,9 @@ func (Engine) Property() string { return "C03" }
 func (Engine) Gen(seed uint64, idx int, tier string) interface{} {
 	r := simrt.NewRand(simrt.Mix(seed, 0x03, uint64(idx)))
 	depth := 2 + r.Intn(3)
+	if tier == "thorough" && r.Chance(1, 3) {
+		depth = 5
+	}
 	sc := &Scenario{Prog: gen.GenScope(r, depth)}
 	sc.Orders = []simrt.MapOrder{{Kind: simrt.OrderAsc}, {Kind: simrt.OrderDesc}}
 	n := 4
